@@ -92,6 +92,7 @@ type Ctx struct {
 	srcMemo           map[*Term][]*Term
 	numMemo           map[string]numInfo
 	syncMaps          map[*Value]*Map
+	pools             map[*Value][]pooled
 	mapOrderMax       int
 	noTrack           int
 	preemptEverywhere bool
